@@ -124,15 +124,19 @@ func calculate(doc billable) error {
 	// Build list of taxable lines
 	tls := make([]tax.TaxableLine, 0)
 	for _, l := range doc.getLines() {
-		if l.Total != nil {
+		if l != nil && l.Total != nil {
 			tls = append(tls, l)
 		}
 	}
 	for _, l := range doc.getDiscounts() {
-		tls = append(tls, l)
+		if l != nil {
+			tls = append(tls, l)
+		}
 	}
 	for _, l := range doc.getCharges() {
-		tls = append(tls, l)
+		if l != nil {
+			tls = append(tls, l)
+		}
 	}
 
 	if len(tls) == 0 {
@@ -203,6 +207,9 @@ func calculate(doc billable) error {
 
 func calculateOrgDocumentRefs(drs []*org.DocumentRef, cur currency.Code, rr cbc.Key) {
 	for _, drs := range drs {
+		if drs == nil {
+			continue
+		}
 		if drs.Currency != currency.CodeEmpty {
 			cur = drs.Currency
 		}
@@ -275,24 +282,35 @@ func applyCustomerRates(doc billable) {
 	}
 	country := doc.getCustomer().TaxID.Country
 	for _, l := range doc.getLines() {
-		addCountryToTaxes(l.Taxes, country)
+		if l != nil {
+			addCountryToTaxes(l.Taxes, country)
+		}
 	}
 	for _, d := range doc.getDiscounts() {
-		addCountryToTaxes(d.Taxes, country)
+		if d != nil {
+			addCountryToTaxes(d.Taxes, country)
+		}
 	}
 	for _, c := range doc.getCharges() {
-		addCountryToTaxes(c.Taxes, country)
+		if c != nil {
+			addCountryToTaxes(c.Taxes, country)
+		}
 	}
 }
 
 func addCountryToTaxes(ts tax.Set, country l10n.TaxCountryCode) {
 	for _, t := range ts {
-		t.Country = country
+		if t != nil {
+			t.Country = country
+		}
 	}
 }
 
 func calculateComplements(comps []*schema.Object) error {
 	for _, c := range comps {
+		if c == nil {
+			continue
+		}
 		if err := c.Calculate(); err != nil {
 			return err
 		}
